@@ -332,6 +332,20 @@ func specStoredDel(g int) int64 {
 	return specStrBE64(vs.TraceRet[string](g, 0), 8)
 }
 
+// The writers themselves (C04: "an entry is active exactly when ... its latest add is not older than its latest
+// remove" - an add is a join with the clock whatever the set holds at the moment, also when the entry already
+// looks active with the same payload: a remove stamped between the two adds may still be on its way): Add and Del do
+// nothing but run their write transaction, once, unconditionally - no look at the cache or the database decides
+// whether it runs. What the transaction does is the contract of the closures below.
+// @ verify (*Durable).Add pre=pre_Durable_writer post=post_Durable_writer props=C04,C14
+// @ verify (*Durable).Del pre=pre_Durable_writer post=post_Durable_writer props=C04,C14
+// @ assume (*github.com/tidwall/buntdb.DB).Update iface for=Add
+// @ assume (*github.com/tidwall/buntdb.DB).Update iface for=Del
+func pre_Durable_writer(s *Durable) bool { return s != nil && s.db != nil && s.cache != nil }
+func post_Durable_writer(s *Durable) bool {
+	return vs.TraceLen() == 1 && vs.TraceFind("buntdb.DB).Update") == 0
+}
+
 // @ verify (*Durable).Add$1 pre=pre_Durable_upd post=post_Durable_Add_guard,post_Durable_Add_value props=C04,C14 qinst
 func pre_Durable_upd(tx *buntdb.Tx, s *Durable) bool { return tx != nil && s != nil && s.cache != nil }
 func post_Durable_Add_guard(tx *buntdb.Tx, s *Durable, item string) bool {
